@@ -457,4 +457,33 @@ pub mod kf {
         // both fills must be visible: k1 bytes at len.., then k2 bytes after them
         assert!(root.as_init().len() == ri.len + k1 + k2, "second fill of Uninit not recorded");
     }
+
+    #[kani::proof]
+    #[kani::unwind(10)]
+    // bound: ArrayVec<u8,8>, two consecutive fills k1,k2 >= 1 of one uninit() view
+    // claim: (holds on the pinned tree, next to known finding F8b) the second fill is written after the first and never overwrites it: the first fill's bytes stay visible at root[len..len+k1)
+    pub fn c10_q_uninit_second_fill_keeps_first() {
+        let mut root = A::make();
+        let ri = root.info();
+        let mut v = root.uninit();
+        let d1: [u8; CAP] = kani::any();
+        let d2: [u8; CAP] = kani::any();
+        let (k1, k2): (usize, usize) = kani::any();
+        kani::assume(k1 >= 1 && k1 <= ri.cap - ri.len);
+        fill_to(&mut v, &d1, k1);
+        let c2 = v.as_uninit().len();
+        kani::assume(k2 >= 1 && k2 <= c2);
+        fill_to(&mut v, &d2, k2);
+        let root = v.into_inner();
+        let now = root.as_init();
+        assert!(now.len() >= ri.len + k1, "first fill no longer recorded");
+        let p: usize = kani::any();
+        kani::assume(p < CAP);
+        if p >= ri.len && p < ri.len + k1 {
+            assert!(now[p] == d1[p - ri.len], "second fill overwrote the first one");
+        } else if p < ri.len {
+            assert!(now[p] == ri.old[p], "content before the view changed");
+        }
+        kani::cover!(k2 > k1 && ri.len > 0);
+    }
 }
